@@ -209,6 +209,11 @@ class KeyedList(Generic[ItemType, KeyType], MutableSequence, KeyedBase):  # pyli
             self._list.append(item)
             self._dict[key] = item
 
+    def clear(self):
+        # (The mixin implementation pops the items one by one.)
+        self._list.clear()
+        self._dict.clear()
+
     def reverse(self):
         # The mixin implementation swaps items pairwise through `__setitem__`,
         # which transiently duplicates keys; reversing cannot change the keys.
